@@ -122,6 +122,7 @@ func c14World(tp *Tape, env *Env) (*Plan, *Violation) {
 	}
 	plan := &Plan{Harness: 1, Property: "C14", Extra: map[string]any{"lines": lines}}
 	env.St.sample(map[string]any{"parser_history": lines})
+	journal(plan)
 	v := c14ParserExec(lines, env.St)
 	return plan, v
 }
@@ -182,6 +183,7 @@ func c14Runner(tp *Tape, env *Env) (*Plan, *Violation) {
 	w := World{Readers: []ReaderSpec{{Text: sb.String()}}, Host: HostSpec{Storer: "default", Seed: "s1"}}
 	plan := &Plan{Harness: 1, Property: "C14", World: w, Extra: map[string]any{"options": nopt, "shared": ns}}
 	env.St.sample(map[string]any{"script": sb.String()})
+	journal(plan)
 	return plan, c14RunnerExec(plan, env.St)
 }
 
